@@ -2,7 +2,7 @@ CHECK = dict(
     level='model_checking', engine='vsched',
     parts=[dict(name='c06', src=['harness/c06_fibre.c'], cflags=['-DPROP=6', '-Wno-format-truncation'], workers=64,
                 objs=[('@VERIF@/harness/c06_scn.c', ['-fsanitize=thread'])],
-                deadline=dict(quick=150, thorough=1800))],
+                deadline=dict(quick=400, thorough=3000))],
     rule='stateless exploration of the real fibre.c/list.c/messageq.c (compiled with -fsanitize=thread against engine/vsched.c): a '
          'scripted main loop (scheduler passes + main-context fibre_run/fibre_kill/fibre_run_atomic) over an event-handling fibre, a '
          'yielding fibre and a sleeping fibre, with every sequence of K interrupt-side calls (fibre_run_atomic on each fibre, '
